@@ -2,7 +2,7 @@ SPECIFICATION Spec
 CONSTANTS
  Alphabet = {0, 1, 128, 255, 90}
  MaxLen = 5
- PieceSizes = {0, 1, 2, 3, 4, 5, 7, 8, 9, 55, 56, 57, 63, 64, 65, 119, 120, 128}
- ShaLens = {0, 1, 2, 54, 55, 56, 57, 62, 63, 64, 65, 66, 118, 119, 120, 121, 127, 128, 129, 183, 184, 191, 192, 193, 250}
+ PieceSizes = {0, 1, 2, 3, 4, 5, 7, 8, 9, 55, 56, 57, 63, 64, 65, 119, 120, 128, 200}
+ ShaLens = {0, 1, 2, 54, 55, 56, 57, 62, 63, 64, 65, 66, 118, 119, 120, 121, 127, 128, 129, 183, 184, 191, 192, 193, 250, 330}
 INVARIANTS FinalIsDefinition RunningCrcIsPrefixCrc ShaSizeCounts
 CHECK_DEADLOCK FALSE
